@@ -262,20 +262,6 @@ def basexErr : Basex.Err → RErr
   | .corrupt _ => .err .basexCorrupt
   | .badLen => .err .basexBadLen
 
-/-- strict decoding of a buffer that contains alphabet characters only, block
-    after block: bytes decoded before the first bad block are still written -/
-def decodePrefix (enc : Basex.Enc) : (fuel : Nat) → Bytes → Bytes × Option Basex.Err
-  | 0, _ => ([], none)
-  | fuel + 1, s =>
-    if s.isEmpty then ([], none)
-    else
-      let blk := s.take enc.charBlockLen
-      match Basex.decode enc.strict blk with
-      | .error e => ([], some e)
-      | .ok b =>
-        let (more, e) := decodePrefix enc fuel (s.drop enc.charBlockLen)
-        (b ++ more, e)
-
 /-- `decoder.Read(p)` with `len(p) = cap` -/
 def dRead (par : Armor.Params) (expect : Armor.Expect) (cap : Nat) (d : DState) : Bytes × Option RErr × DState :=
   match d.err with
@@ -298,7 +284,7 @@ def dRead (par : Armor.Params) (expect : Armor.Expect) (cap : Nat) (d : DState) 
     | none =>
       let nDec := if eof then d2.buf.length else d2.buf.length / obl * obl
       let nOut := par.enc.decLen nDec
-      let (dec, de) := decodePrefix par.enc (nDec + 1) (d2.buf.take nDec)
+      let (dec, de) := Basex.decodePrefix par.enc (nDec + 1) (d2.buf.take nDec)
       let err' : Option RErr := de.map basexErr
       let rest := d2.buf.drop nDec
       if nOut > cap then
